@@ -190,6 +190,9 @@ def near_misses():
     out["outer"] = pt.transform.lower_to_index_lambda.to_index_lambda(pt.einsum("i,j->ij", y, x[:, 0]))
     out["concat3"] = pt.transform.lower_to_index_lambda.to_index_lambda(pt.concatenate([x, x[:2], x], axis=0))
     out["reduce_extra_axis"] = red((var("_0"), var("_r0")), {"_r0": (0, 4)}, x, (3, 2))
+    # a reduction variable the summand never uses: 5 * x[_0, _1], not x
+    out["reduce_unused_var"] = red((var("_0"), var("_1")), {"_r0": (0, 5)}, x, (3, 4))
+    out["reduce_unused_var2"] = red((var("_0"), var("_r0")), {"_r0": (0, 4), "_r1": (0, 2)}, x, (3,))
     out["reduce_npint_shape"] = pt.sum(pt.make_placeholder("xi", (np.int64(3), np.int64(4)), F64), axis=1)
     out["full_nan"] = pt.full((2, 3), np.nan)
     return I, out
